@@ -325,15 +325,21 @@ func genSuggestUser(r *RNG, common []string) *sCase {
 			lines = lines[:len(lines)-1]
 		}
 		inst := strings.HasPrefix(sc.Kind, "user-instance")
-		selfForm := r.Bool() && ti < nsFrom // self: inside the (top-level) target class itself
+		selfForm := r.Bool()
 		switch {
 		case selfForm && inst:
+			if ti >= nsFrom {
+				emit("module Geo")
+			}
 			emit("class " + target.name)
 			emit("  def cursor_here")
 			emit("    self.")
 			sc.Row = len(lines)
 			emit("  end")
 			emit("end")
+			if ti >= nsFrom {
+				emit("end")
+			}
 			sc.Recv = "self"
 			sc.Kind = "self-in-instance-method"
 			// self answers its private methods too: not judged either way
@@ -345,12 +351,18 @@ func genSuggestUser(r *RNG, common []string) *sCase {
 			}
 			sc.MustNot = mn
 		case selfForm:
+			if ti >= nsFrom {
+				emit("module Geo")
+			}
 			emit("class " + target.name)
 			emit("  def self.cursor_here")
 			emit("    self.")
 			sc.Row = len(lines)
 			emit("  end")
 			emit("end")
+			if ti >= nsFrom {
+				emit("end")
+			}
 			sc.Recv = "self"
 			sc.Kind = "self-in-class-method"
 		case inst:
